@@ -1709,12 +1709,10 @@ def build_raw(spec):
 
 CTOR_MUTATIONS = ["valid", "zero cells", "empty shape", "periodic length", "bounds length", "negative inner radius",
                   "inner == outer", "inner > outer", "extra shape entry", "single shape entry"]
-# `CylindricalSymGrid(r, (z1, z0), ..)` with reversed `bounds_z` is ACCEPTED by /repo (negative spacing and volumes;
-# Lean witness `cylinder_reversed_bounds_z_accepted`, proposed patch notes/proposed_fixes/C12-cylinder-reversed-bounds-z.diff).
-# The stream below produces it (the monitor of this leg then reports the degenerate axis with the inputs); it is switched
-# on with VERIF_C12_REVERSED_Z=1 until the finding is repaired or listed (this round may not edit known_findings.json).
-if os.environ.get("VERIF_C12_REVERSED_Z") == "1":
-    CTOR_MUTATIONS = CTOR_MUTATIONS + ["reversed bounds_z"]
+# `CylindricalSymGrid(r, (z1, z0), ..)` with reversed `bounds_z` was accepted by /repo (negative spacing and volumes); repaired
+# by `fix: CylindricalSymGrid accepted reversed bounds_z` - the model refuses it too (`construct_cylindrical_bounds_z`,
+# `cylinder_reversed_bounds_z_rejected`) and the stream produces it on every run.
+CTOR_MUTATIONS = CTOR_MUTATIONS + ["reversed bounds_z"]
 
 
 def leg_construct(ctx, P, rng, force=None):
